@@ -1226,6 +1226,17 @@ func (in *Interp) sliceOp(fr *frame, ins *ssa.Slice) value {
 	if !in.branch(ts.Cmp(OpULe, lo, hi)) {
 		in.rtPanic(fmt.Sprintf("slice bounds out of range [%s:%s]", lo, hi))
 	}
+	if str != nil && !in.forkIndex && !lo.IsConst() {
+		// constant-width window at a symbolic offset of an (immutable) string: no fork per
+		// offset, each byte is a select over the string
+		if k, ok := constDiff(hi, lo); ok && k >= 0 && k <= 16 && len(str.b) > 0 && len(str.b) <= 512 {
+			b := make([]*Term, k)
+			for j := range b {
+				b[j] = in.strIndex(*str, ts.Bin(OpAdd, lo, ts.Const(64, uint64(j))))
+			}
+			return Str{b}
+		}
+	}
 	h := int(in.concretize(hi, 0, int64(limit), "slice high"))
 	l := int(in.concretize(lo, 0, int64(h), "slice low"))
 	if str != nil {
@@ -1235,6 +1246,22 @@ func (in *Interp) sliceOp(fr *frame, ins *ssa.Slice) value {
 		return Slice{isNil: true}
 	}
 	return Slice{a: a[l:h:limit]}
+}
+
+// constDiff reports hi-lo when both are the same term plus constants.
+func constDiff(hi, lo *Term) (int64, bool) {
+	split := func(t *Term) (*Term, uint64) {
+		if t.op == OpAdd && t.a[1].op == OpConst {
+			return t.a[0], t.a[1].val
+		}
+		return t, 0
+	}
+	hx, hc := split(hi)
+	lx, lc := split(lo)
+	if hx != lx {
+		return 0, false
+	}
+	return int64(hc - lc), true
 }
 
 // ---------------------------------------------------------------------------
